@@ -15,7 +15,7 @@ CONFIG = {
             "Non-trivial: nr/pv cases where numReveals returned a count, vw cases reaching the inequality, coin cases with signedWeight > 1.",
     "exhaustive": {"quick": False, "thorough": False},
     "explanation": "theorems hold for all integers (unbounded Z); the harness validates the transcription of weights.go/coinGenerator.go against the real functions",
-    "assumptions": ["math/big arithmetic is exact; big.Int.Uint64 returns the low 64 bits (Go standard library)",
+    "assumptions": ["math/big arithmetic is exact; big.Int.IsUint64/Uint64 as documented (Go standard library); the model is the code with fixes/C38.patch applied",
                     "lnProvenWeight is an arbitrary input (LnIntApproximation's float64 computation is not modelled)",
                     "the SHAKE256 output stream is an arbitrary input of the coin theorems"],
     "trusted_base": ["modelled: crypto/stateproof/weights.go (getSubExpressions, numReveals, verifyWeights), coinGenerator.go (threshold, getNextCoin) as Gallina over Z (coq/model/SpWeights.v)"],
